@@ -66,7 +66,16 @@ Calls == <<
   Call("BVRol(b,2)", OpI("bv_rol", <<B>>, <<2, 2>>), "", ""), Call("BVRol(b,0)", OpI("bv_rol", <<B>>, <<2, 0>>), "", ""),
   Call("BVRor(b,2)", OpI("bv_ror", <<B>>, <<2, 2>>), "", ""), Call("BVRor(b,0)", OpI("bv_ror", <<B>>, <<2, 0>>), "", ""),
   Call("BVRol(b,1)", OpI("bv_rol", <<B>>, <<2, 1>>), "", ""), Call("BVZExt(b,0)", OpI("bv_zext", <<B>>, <<2, 0>>), "", ""),
-  Call("BVExtract(b,0,1)", OpI("bv_extract", <<B>>, <<2, 0, 1>>), "", "") >>
+  Call("BVExtract(b,0,1)", OpI("bv_extract", <<B>>, <<2, 0, 1>>), "", ""),
+  \* the Python infix operators and methods are one more route to the same structures (a slice names both ends
+  \* inclusively; a missing end is the last / first bit; a bound that is 0 is a bound, not a missing one)
+  Call("b[0:1]", OpI("bv_extract", <<B>>, <<2, 0, 1>>), "", ""), Call("b[:]", OpI("bv_extract", <<B>>, <<2, 0, 1>>), "", ""),
+  Call("BVExtract(b,0,0)", OpI("bv_extract", <<B>>, <<1, 0, 0>>), "", ""), Call("b[0:0]", OpI("bv_extract", <<B>>, <<1, 0, 0>>), "", ""),
+  Call("b[:0]", OpI("bv_extract", <<B>>, <<1, 0, 0>>), "", ""), Call("b[0]", OpI("bv_extract", <<B>>, <<1, 0, 0>>), "", ""),
+  Call("BVExtract(b,1,1)", OpI("bv_extract", <<B>>, <<1, 1, 1>>), "", ""), Call("b[1:]", OpI("bv_extract", <<B>>, <<1, 1, 1>>), "", ""),
+  Call("b[1]", OpI("bv_extract", <<B>>, <<1, 1, 1>>), "", ""),
+  Call("p & q", Op("and", <<P, Q>>), "", ""), Call("p.And(q)", Op("and", <<P, Q>>), "", ""), Call("~p", Op("not", <<P>>), "", ""),
+  Call("x >= 2", Op("le", <<IntC(2), X>>), "", ""), Call("b & c & d", OpI("bv_and", <<OpI("bv_and", <<B, C>>, <<2>>), D>>, <<2>>), "", "") >>
 
 NCalls == Len(Calls)
 Den(i) == Calls[i].den
